@@ -111,6 +111,13 @@ CHECKS = {
                      "calling module; PagesTrace keeps the owner map and rejects a write / free by a non-owner, and compares what every read "
                      "interface returns with the content computed from the step parameters.",
                 note="the defect the model predicted (node 512 written into the page after the table) was confirmed and repaired (fix e4d74e8)"),
+    "C31": dict(ref="5 C31", tech="TLA+ trace validation (KnnTrace: the abstract nearest-neighbour oracle KnnAbs with exact integer arithmetic) of recorded vector searches",
+                text="Generated vector sets with small integer coordinates (ties, duplicates, re-insertions, deleted nodes, vectors written by dropped "
+                     "transactions) are inserted through transactions with link counts M in {2,3,4,16}; every search_vector answer is judged by TLC: at "
+                     "most k, distinct, live nodes with a committed vector, exact Euclidean distance (big-integer comparison of the f32 mantissa "
+                     "squared against the exact squared distance), non-decreasing order, exactly the k nearest while the index holds <= 2M+1 vectors, "
+                     "and the same answer when the search is repeated after compaction or reopen (indexes of 900 vectors force root splits).",
+                note="three defects found and repaired (stale roots after reopen, deleted nodes returned, vectors of dropped transactions); KF-26 = KF-01's effect on search"),
     "C26": dict(ref="5 C26", tech="TLC model checking of BTree.tla + TLA+ trace validation (BTreeTrace) of the real B-tree",
                 text="BTree.tla transcribes insert/split/delete/cursor with page capacity 2; TLC checks scan/lookup/delete against the "
                      "sorted-multimap ghost exhaustively for unique keys, and reproduces the equal-keys defect whose counterexample is "
@@ -178,7 +185,7 @@ CHECKS = {
 }
 
 # properties whose check has been run green on the unchanged tree
-ENABLED = ["C01", "C02", "C03", "C04", "C05", "C06", "C07", "C08", "C09", "C10", "C11", "C12", "C13", "C14", "C15", "C17", "C18", "C19", "C20", "C21", "C22", "C23", "C24", "C26", "C27", "C28", "C29", "C30", "C32", "C33", "C34", "C35"]
+ENABLED = ["C01", "C02", "C03", "C04", "C05", "C06", "C07", "C08", "C09", "C10", "C11", "C12", "C13", "C14", "C15", "C17", "C18", "C19", "C20", "C21", "C22", "C23", "C24", "C26", "C27", "C28", "C29", "C30", "C31", "C32", "C33", "C34", "C35"]
 
 NOT_APPLICABLE = {
     "C16": "quantifies over arbitrary byte strings and resource exhaustion; no state machine to specify, a fuzzer's job (DESIGN.md 6)",
